@@ -1,4 +1,187 @@
+//! C12 — hex strings, colour names and packed integers round-trip and parse strictly.
+//!
+//! (a) `hex/*`     format -> parse round trip: all 2^24 Rgb<u8>, lattices for the wider types
+//! (b) `packed*`   all 2^32 packed values x 4 RGBA orders, all 2^16 x 2 luma orders, From conventions
+//! (c) `named/*`   svg_colors.txt is exactly what from_str/entries/names/colors/constants know
+//! (d) `parse/*`   all strings up to N symbols, and all small edits of valid strings, through every
+//!                 FromStr impl against a reference parser; never a panic
+mod hexref;
+mod names;
+mod packed;
+mod roundtrip;
+mod strings;
+
+use palette::luma::channels as lch;
+use palette::rgb::channels as rch;
+use palette::{Srgb, Srgba};
+use pv::{json, Collector, Ctx, Mode, Tier, Value};
+
+include!(concat!(env!("OUT_DIR"), "/named_consts.rs"));
+pub const SVG_COLORS: &str = include_str!(env!("C12_SVG_COLORS"));
+
+fn parse_u64(v: &Value) -> u64 {
+    match v {
+        Value::String(s) => u64::from_str_radix(s.trim_start_matches("0x"), 16).unwrap_or(0),
+        Value::Number(n) => n.as_u64().unwrap_or(0),
+        _ => 0,
+    }
+}
+
+fn replay(c: &mut Collector, rep: &Value) {
+    let case = &rep["case"];
+    let tys = hexref::types();
+    let bad = |what: &str| -> ! {
+        eprintln!("replay: {what}");
+        std::process::exit(3)
+    };
+    match case["sub"].as_str().unwrap_or("") {
+        "parse" => {
+            let ty = case["ty"].as_str().unwrap_or("");
+            let input = case["input"].as_str().unwrap_or_else(|| bad("no input string"));
+            let t = tys.iter().find(|t| t.name == ty).unwrap_or_else(|| bad("unknown type"));
+            let (code, _) = (t.check)(c, input);
+            println!("{}::from_str({:?}) [bytes {}]: {}", ty, input, hexref::hex_bytes(input), ["rejected, as the reference parser does", "accepted with the reference value", "differs from the reference parser"][code as usize]);
+        }
+        "hex" => {
+            let ty = case["ty"].as_str().unwrap_or("");
+            let f = roundtrip::fmt_types().into_iter().find(|f| f.name == ty).unwrap_or_else(|| bad("unknown type"));
+            let mut ch = [0u32; 4];
+            for (k, v) in case["input"].as_array().unwrap_or_else(|| bad("no channels")).iter().enumerate().take(4) {
+                ch[k] = parse_u64(v) as u32;
+            }
+            let mut st = roundtrip::Stats::default();
+            (f.run)(c, &tys, ch, &mut st);
+            println!("{} {:x?}: {} operations re-executed", ty, ch, st.ops);
+        }
+        "packed" => {
+            let v = parse_u64(&case["input"]) as u32;
+            match case["order"].as_str().unwrap_or("") {
+                "Rgba" => packed::check_packed::<rch::Rgba>(c, v),
+                "Argb" => packed::check_packed::<rch::Argb>(c, v),
+                "Bgra" => packed::check_packed::<rch::Bgra>(c, v),
+                "Abgr" => packed::check_packed::<rch::Abgr>(c, v),
+                _ => bad("unknown order"),
+            }
+        }
+        "from-u32" => packed::check_from_u32(c, parse_u64(&case["input"]) as u32),
+        "packed-array16" => {
+            let mut ch = [0u16; 4];
+            for (k, v) in case["input"].as_array().unwrap_or_else(|| bad("no channels")).iter().enumerate().take(4) {
+                ch[k] = parse_u64(v) as u16;
+            }
+            match case["order"].as_str().unwrap_or("") {
+                "Rgba" => packed::check_array16::<rch::Rgba>(c, ch),
+                "Argb" => packed::check_array16::<rch::Argb>(c, ch),
+                "Bgra" => packed::check_array16::<rch::Bgra>(c, ch),
+                "Abgr" => packed::check_array16::<rch::Abgr>(c, ch),
+                _ => bad("unknown order"),
+            }
+        }
+        "packed-luma" => {
+            let v = parse_u64(&case["input"]) as u16;
+            match case["order"].as_str().unwrap_or("") {
+                "La" => packed::check_luma::<lch::La>(c, v),
+                "Al" => packed::check_luma::<lch::Al>(c, v),
+                _ => bad("unknown order"),
+            }
+        }
+        "from-u16" => packed::check_from_u16(c, parse_u64(&case["input"]) as u16),
+        "name" => {
+            let nl = names::parse_svg_list();
+            let input = case["input"].as_str().unwrap_or_else(|| bad("no input string"));
+            let class = case["class"].as_str().unwrap_or("replay").to_string();
+            let found = names::check_name_lookup(c, &nl, input, &class);
+            println!("named::from_str({:?}) found = {}, listed = {}", input, found, nl.map.contains_key(input));
+        }
+        "named-tables" => {
+            let nl = names::parse_svg_list();
+            names::check_named_tables(c, &nl);
+        }
+        other => bad(&format!("unknown sub-check {other:?}")),
+    }
+}
+
 fn main() {
-    eprintln!("C12: check not built yet");
-    std::process::exit(3);
+    pv::main_guard(real_main)
+}
+
+fn real_main() -> i32 {
+    hexref::selftest();
+    hexref::install_hook();
+    let (ctx, mode) = Ctx::from_args("C12");
+    if let Mode::Replay(rep) = mode {
+        let mut c = Collector::new();
+        replay(&mut c, &rep);
+        return ctx.finish_replay(c);
+    }
+    let tys = hexref::types();
+    let mut total = Collector::new();
+
+    // (a)
+    roundtrip::hex_roundtrip::<Srgb<u8>>(&ctx, &mut total, &tys, 8, true);
+    roundtrip::hex_roundtrip::<Srgba<u8>>(&ctx, &mut total, &tys, 8, false);
+    roundtrip::hex_roundtrip::<Srgb<u16>>(&ctx, &mut total, &tys, 16, false);
+    roundtrip::hex_roundtrip::<Srgba<u16>>(&ctx, &mut total, &tys, 16, false);
+    roundtrip::hex_roundtrip::<Srgb<u32>>(&ctx, &mut total, &tys, 32, false);
+    roundtrip::hex_roundtrip::<Srgba<u32>>(&ctx, &mut total, &tys, 32, false);
+
+    // (b)
+    packed::packed_order::<rch::Rgba>(&ctx, &mut total);
+    packed::packed_order::<rch::Argb>(&ctx, &mut total);
+    packed::packed_order::<rch::Bgra>(&ctx, &mut total);
+    packed::packed_order::<rch::Abgr>(&ctx, &mut total);
+    packed::from_u32(&ctx, &mut total);
+    packed::array16::<rch::Rgba>(&ctx, &mut total);
+    packed::array16::<rch::Argb>(&ctx, &mut total);
+    packed::array16::<rch::Bgra>(&ctx, &mut total);
+    packed::array16::<rch::Abgr>(&ctx, &mut total);
+    packed::luma(&ctx, &mut total);
+
+    // (c)
+    let nl = names::parse_svg_list();
+    if ctx.wants("named/tables") {
+        names::check_named_tables(&mut total, &nl);
+    }
+    names::case_variants(&ctx, &mut total, &nl);
+    names::near_misses(&ctx, &mut total, &nl);
+    names::short_strings(&ctx, &mut total, &nl);
+
+    // (d)
+    let n12 = ctx.tier.pick(6usize, 8usize);
+    strings::all_strings(
+        &ctx,
+        &mut total,
+        &tys,
+        "parse/sigma12",
+        &strings::SIGMA12,
+        0,
+        n12,
+        &format!("all strings of 0..={n12} symbols over {{'0','9','a','F','g','+','-','#',' ',U+00E9 (2 bytes),U+20AC (3 bytes),U+1D7D8 (4 bytes)}}, through all 10 FromStr impls"),
+    );
+    if ctx.tier == Tier::Thorough {
+        strings::all_strings(&ctx, &mut total, &tys, "parse/sigma8-len9", &strings::SIGMA8, 9, 9, "all strings of exactly 9 symbols over {'0','a','F','g','+','#',' ',U+00E9}, through all 10 FromStr impls (shorter ones are covered by parse/sigma12)");
+    }
+    {
+        let mut syms: Vec<String> = (0u8..128).map(|b| (b as char).to_string()).collect();
+        for s in ["\u{e9}", "\u{20ac}", "\u{1d7d8}", "\u{ff46}", "\u{663}"] {
+            syms.push(s.to_string());
+        }
+        let alpha: Vec<&str> = syms.iter().map(|s| s.as_str()).collect();
+        let n = ctx.tier.pick(3usize, 4usize);
+        strings::all_strings(&ctx, &mut total, &tys, "parse/ascii", &alpha, 0, n, &format!("all strings of 0..={n} symbols over all 128 ASCII characters plus U+00E9, U+20AC, U+1D7D8, U+FF46 (fullwidth f), U+0663 (Arabic-Indic three), through all 10 FromStr impls"));
+    }
+    strings::edits(&ctx, &mut total, &tys);
+
+    ctx.finish(
+        total,
+        "model_checking",
+        "states = inputs enumerated completely: colours (all 2^24 Rgb<u8>; lattice + single-channel walks for wider types), packed integers (all 2^32 per RGBA order, all 2^16 per luma order), name strings (every listed name, all its capitalisations and edits, all short a-z strings) and hex-candidate strings (all strings up to N symbols over the alphabet, all small edits of valid strings of every documented length); every state goes through the real format/parse/pack/unpack/lookup code and is compared with a reference model (canonical hex writer, reference hex parser, byte-position table, svg_colors.txt). non-trivial = colours whose channels differ or need zero padding; packed values whose bytes are not all equal; name strings other than the listed spelling (for named/short: the listed ones); strings whose length after the optional '#' reaches the digit-parsing code of at least one impl (3,4,6,8,12,16,24,32 bytes)",
+        &[
+            "the documented digit counts are those written on each FromStr impl in palette/src/rgb/rgb.rs (u8: 3|6 / 4|8; u16 and f32: + 12 / 16; u32 and f64: + 24 / 32)",
+            "a shorter form parsed into a wider or float type has the value of the narrow integer colour converted with into_format (C06 checks into_format itself)",
+            "byte positions: the order's name read left to right = most significant byte first (docs of cast::Packed: 0xAARRGGBB for Argb), arrays in the same order",
+            "the colour standard type parameter is phantom for all operations checked; Srgb is used throughout",
+            "svg_colors.txt and the list of pub consts in named/codegen.rs are embedded at build time from the tree the check is built against",
+        ],
+    )
 }
